@@ -75,6 +75,21 @@ theorem c15gen_astar_choice_irrelevant (ops : List Op) (astar₁ astar₂ : UGra
     | none => have := C15.c15_some_none_exclusive (abs g) hs a b p h₁; rw [h₂] at this; cases this
     | some q => exact C15.c15_accepted_same_weight (abs g) hs a b p q h₁ h₂
 
+/-- **an accepted answer only walks along edges the generated `contains_edge` reports** — on every graph reached by the generated
+mutators (so after removals too: a path over a removed edge or through a removed node is never accepted) -/
+theorem c15gen_accepted_steps_are_edges (ops : List Op) (a b : Nat) (p : List Nat) :
+    let g := (C08Gen.genRun init ops).1
+    judge (abs g) a b (some p) = true → ∀ u v, (u, v) ∈ p.zip p.tail → contains_edge g u v = some true := by
+  intro g hj u v hm
+  have hwf : Model.UGraph.WF g := C08Gen.c08gen_reachable_wf ops
+  have hg : g = (run .repaired init ops).1 := by
+    show (C08Gen.genRun init ops).1 = _
+    rw [C08Gen.gen_run ops wf_init]
+  rw [C08Gen.contains_edge_eq hwf]
+  have := C15.c15_accepted_steps_are_api_edges ops a b p
+  simp only [← hg] at this
+  exact congrArg some (this hj u v hm)
+
 /-- non-vacuity: a history with a removal executed by the generated mutators, then a query with an `astar` answer -/
 example :
     let g := (C08Gen.genRun init [.addNode 1, .addNode 2, .addNode 3, .addEdgeW 0 1 5, .addEdgeW 1 2 0, .removeNode 1]).1
